@@ -41,6 +41,19 @@ FAMILIES = [
 ]
 
 
+# families beyond the theorem's table (no model comparison; the implementation's own doubling bound, polynomial bound and
+# reproducibility): a pure sum (term positions are re-queried at every curtailment level: needs > 128 operands to notice a
+# bounded cache) and nested brackets with three forms sharing a prefix (a failed alternative must be memoized too)
+EXTRA = [
+    (FAMILIES[1][0], lambda n: [49] + [43, 49] * (n // 2), 20),
+    ([('memo', 1, ('choice', [('ref', 1), ('ref', 2), ('ref', 3), rn(97)])),
+      ('memo', 2, sq(rn(40), ('ref', 0), rn(44), ('ref', 0), rn(44), ('ref', 0), rn(41))),
+      ('memo', 3, sq(rn(40), ('ref', 0), rn(44), ('ref', 0), rn(41))),
+      ('memo', 4, sq(rn(40), ('ref', 0), rn(41)))],
+     lambda n: [40] * (n // 2) + [97] + [41] * (n // 2), 20),
+]
+
+
 def generate(rng, tier):
     out = []
     for k, (rules, inp, top) in enumerate(FAMILIES):
@@ -52,6 +65,11 @@ def generate(rng, tier):
             small = "(%s)" % G.case_text(rules, ('ref', 0), inp(n))
             big = "(%s)" % G.case_text(rules, ('ref', 0), inp(2 * n))
             out.append(("C17 %d %d %s %s" % (k, n, small, big), {"stream": "family-%d" % k}))
+    for j, (rules, inp, top) in enumerate(EXTRA):
+        for n in ((16, 64, 128, 160) if tier == "quick" else range(8, 161, 8)):
+            small = "(%s)" % G.case_text(rules, ('ref', 0), inp(n))
+            big = "(%s)" % G.case_text(rules, ('ref', 0), inp(2 * n))
+            out.append(("C17 %d %d %s %s" % (len(FAMILIES) + j, n, small, big), {"stream": "extra-family-%d" % j}))
     return out
 
 
